@@ -384,6 +384,8 @@ class SimSocket(object):
         of = self._of
         if of.peer is None and not of.listening:
             raise _err(errno.ENOTCONN)
+        if getattr(of, "aborted", False):
+            raise _err(errno.ENOTCONN)      # the peer reset the connection: nothing left to shut down
         if of.listening:
             # Linux: shutdown on a listening socket wakes blocked accept()s
             of.closed_for_accept = True
